@@ -671,8 +671,12 @@ fn exec_op_inner<C: Cv, CS: ConstraintSystem<Fr<C>>>(
                     cx.consts.borrow_mut().insert(*id + (1 << 40), d);
                     (k, d)
                 } else {
+                    // (the verifier's own statement may spell another offset than the prover's: a deviating statement)
                     (cx.consts.borrow().get(id).copied().unwrap_or_else(Fr::<C>::zero),
-                     cx.consts.borrow().get(&(*id + (1 << 40))).copied().unwrap_or_else(Fr::<C>::zero))
+                     match delta {
+                         Some(d) => cx.val(d),
+                         None => cx.consts.borrow().get(&(*id + (1 << 40))).copied().unwrap_or_else(Fr::<C>::zero),
+                     })
                 };
                 match split.as_deref() {
                     Some("first") => { ts.push((Variable::One(), k)); ts.push((Variable::One(), d)); }
